@@ -213,21 +213,29 @@ def _env_state(r, weights=(0.7, 0.15, 0.15)):
 
 
 def _touched_state(r, same_as=None, p_unset=0.32):
-    """unset, or a distinct sentinel; one sentinel equals the value the code will set."""
+    """Entry state of a touched variable: unset, or set to - the value the code itself will
+    set (no visible perturbation), that value up to case, the empty string (a falsy "set"
+    state), a value on which common "harmless" normalisations are not the identity, or a
+    distinct sentinel."""
     u = r.random()
+    v = r.random()
+    odd = r.choice(['/data/calib/', '/a//b', '/x/./y', './rel/', ' padded ', 'MixedCase', 'with space',
+                    'v5_7_0 ', '~/calib', '$HOME/calib', 'C:\\calib\\', 'caf\u00e9'])
+    sentinel = 'orig_' + _name(r, 4)
     if u < p_unset:
         return None
-    if u < 0.47 and same_as is not None:
-        return same_as
-    if u < 0.57:
-        return ''                      # set, but empty: a falsy "set" state
-    if u < 0.70:
-        # values on which common "harmless" normalisations are not the identity
-        return r.choice(['/data/calib/', '/a//b', '/x/./y', './rel/', ' padded ', 'MixedCase', 'with space',
-                         'v5_7_0 ', '~/calib', '$HOME/calib', 'C:\\calib\\', 'caf\u00e9'])
-    if u < 0.62 and same_as is not None and same_as.upper() != same_as:
-        return same_as.upper()         # equal to the parameter-file value up to case
-    return 'orig_' + _name(r, 4)
+    options = [(0.10, ''), (0.16, odd), (0.50, sentinel)]
+    if same_as is not None:
+        options.append((0.18, same_as))
+        if same_as.upper() != same_as:
+            options.append((0.06, same_as.upper()))
+    total = sum(w_ for w_, _ in options)
+    acc = 0.0
+    for w_, val in options:
+        acc += w_/total
+        if v < acc:
+            return val
+    return sentinel
 
 
 def _fault_draw(r, tier):
